@@ -208,6 +208,18 @@ fn documented_winners(srcs: &[Src], total: usize, max: usize) -> Vec<(u8, u16)> 
     vec![]
 }
 
+/// "until signaling resets the latch" / "a signaling reset starts a fresh selection": after a reset or
+/// retarget no packet seen before it may still vote — evaluated on the hook's dump of the hidden table.
+fn fresh_window(fail: &mut impl FnMut(&str, String), what: &str, after: &Obs, window: Option<u8>) {
+    match (&after.prob, window) {
+        (Some(p), Some(m)) => if !p.cands.is_empty() || p.total != 0 || p.max != m {
+            fail(&format!("window:{what}-kept-pre-reset-votes"), format!("{} candidates, total {}, max {} (configured {})", p.cands.len(), p.total, p.max, m)); },
+        (Some(_), None) => fail(&format!("window:{what}-armed-a-window-although-none-configured"), String::new()),
+        (None, Some(_)) => fail(&format!("window:{what}-did-not-arm-the-configured-window"), String::new()),
+        (None, None) => {}
+    }
+}
+
 /// Returns oracle failures (signature, detail) for a case and its observations.
 pub fn oracles(c: &Case, obs: &[Obs]) -> Vec<(String, String)> {
     let mut fails: Vec<(String, String)> = vec![];
@@ -280,11 +292,13 @@ pub fn oracles(c: &Case, obs: &[Obs]) -> Vec<(String, String)> {
                 rtcp_changes = 0; srcs.clear(); total = 0; window = if latch_on && maxp > 0 { Some(maxp) } else { None };
                 if moved { fail("api:reset-moved-destination", String::new()); }
                 if after.latched { fail("api:reset-left-latch-set", String::new()); }
+                if after.on { fresh_window(&mut fail, "reset", after, window); }
             }
             Op::Sig(ip, p) => {
                 rtcp_changes = 0; srcs.clear(); total = 0; window = if latch_on && maxp > 0 { Some(maxp) } else { None };
                 if after.remote != (*ip, *p) { fail("api:signaling-retarget-not-applied", String::new()); }
                 if after.latched { fail("api:signaling-retarget-left-latch-set", String::new()); }
+                if after.on { fresh_window(&mut fail, "signaling-retarget", after, window); }
             }
             Op::Pair(ip, p) => {
                 if before.latched && latch_on {
@@ -294,7 +308,9 @@ pub fn oracles(c: &Case, obs: &[Obs]) -> Vec<(String, String)> {
             }
             Op::Ssrc(v) => {
                 // sources seen under another SSRC expectation did not send "RTP carrying the expected SSRC"
-                if *v != expected { srcs.clear(); total = 0; }
+                if *v != expected { srcs.clear(); total = 0;
+                    if let Some(p) = &after.prob { if !p.cands.is_empty() || p.total != 0 {
+                        fail("window:ssrc-change-kept-votes-of-the-previous-expectation", format!("{} candidates, total {}", p.cands.len(), p.total)); } } }
                 expected = *v;
                 if moved || after.latched != before.latched { fail("api:ssrc-changed-destination-or-latch", String::new()); }
             }
@@ -367,6 +383,18 @@ fn emit(run: &mut Run, rt: &tokio::runtime::Runtime, c: &Case) {
     if moved { run.count("cases_destination_moved"); }
     if obs.windows(2).any(|w| w[0].rtcp != w[1].rtcp) { run.count("cases_rtcp_learnt"); }
     if obs.iter().any(|o| o.prob.as_ref().map(|p| p.cands.len() >= 2).unwrap_or(false)) { run.count("cases_two_or_more_candidates"); }
+    // API ops landing in the MIDDLE of an open, non-empty probation window (candidates observed, nothing committed)
+    for (i, op) in c.ops.iter().enumerate() {
+        let open = !obs[i].latched && obs[i].prob.as_ref().map(|p| !p.cands.is_empty()).unwrap_or(false);
+        if !open { continue; }
+        let key = match op {
+            Op::Reset => "midwindow_reset", Op::Sig(..) => "midwindow_signaling_retarget", Op::Pair(..) => "midwindow_pair_update",
+            Op::Ssrc(v) => if *v != obs[i].exp { "midwindow_ssrc_change" } else { "midwindow_ssrc_same" },
+            Op::Maxp(_) => "midwindow_maxp", Op::Enable => "midwindow_enable", Op::RtcpAddr(_) => "midwindow_rtcp_addr", Op::Pkt(..) => continue };
+        run.count(key);
+        // … and followed by at least one more expected-SSRC packet, so stale state would have to show
+        if c.ops[i + 1..].iter().any(|o| matches!(o, Op::Pkt(_, _, b) if is_rtp(b) && b.len() >= 12)) { run.count(&format!("{key}_then_rtp")); }
+    }
     if obs.iter().any(|o| o.prob.as_ref().map(|p| p.cands.iter().any(|c| c.count == 255) || p.total == 255).unwrap_or(false)) { run.count("cases_counter_at_255"); }
     for (sig, detail) in oracles(c, &obs) {
         run.fail(&sig, &input, &detail);
@@ -440,6 +468,45 @@ pub fn run(args: &Args) {
             emit(&mut run, &rt, &Case { init: (9, 5009), maxp, tcp: false, ops });
         }
         run.count_n(&format!("rule_competition_maxp{maxp}_len{len}"), n as u64);
+    }
+    // (2b) exhaustive mid-window API family: two sources x {run +1, break -3} + every latch API op
+    // (reset, signaling retarget, pair update, same SSRC, changed SSRC (toggles), window size, enable);
+    // every sequence of the given length, so each op lands in every reachable open-window state and is
+    // followed by packets that a stale table / stale total would mis-decide.
+    let mid: Vec<(u8, usize)> = if thorough { vec![(2, 5), (3, 5), (4, 6), (6, 5)] } else { vec![(4, 5), (6, 5), (3, 4), (2, 4)] };
+    for &(maxp, len) in &mid {
+        let n = 11usize.pow(len as u32);
+        for idx in 0..n {
+            let mut last = [1000u16, 20u16];
+            let mut cur_ssrc = SSRC;
+            let mut ops = vec![Op::Ssrc(SSRC), Op::Enable];
+            let mut k = idx;
+            for _ in 0..len {
+                let sym = k % 11; k /= 11;
+                ops.push(match sym {
+                    0..=3 => { let (s, brk) = (sym & 1, sym & 2 != 0);
+                        let seq = if brk { last[s].wrapping_sub(3) } else { last[s].wrapping_add(1) }; last[s] = seq;
+                        let (ip, port) = [SRC[0], SRC[2]][s];
+                        Op::Pkt(ip, port, rtp(false, seq, seq as u32, SSRC)) }
+                    4 => Op::Reset, 5 => Op::Sig(SIG.0, SIG.1), 6 => Op::Pair(PAIR.0, PAIR.1),
+                    7 => Op::Ssrc(cur_ssrc),
+                    8 => { cur_ssrc = if cur_ssrc == SSRC { 5 } else { SSRC }; Op::Ssrc(cur_ssrc) }
+                    9 => Op::Maxp(2), _ => Op::Enable });
+            }
+            emit(&mut run, &rt, &Case { init: (9, 5009), maxp, tcp: false, ops });
+        }
+        run.count_n(&format!("midwindow_api_family_maxp{maxp}_len{len}"), n as u64);
+    }
+    // (2c) directed (coordinator's seed C18-b): window 4, the old source sends 3 packets, a reset / retarget with the
+    // SAME expected SSRC lands in the open window, the new source sends one packet — nothing may be decided yet
+    // and the old source must not come back
+    for api in [vec![Op::Reset], vec![Op::Sig(SIG.0, SIG.1)], vec![Op::Reset, Op::Ssrc(SSRC)], vec![Op::Sig(SIG.0, SIG.1), Op::Ssrc(SSRC)]] {
+        let (o, nw) = (SRC[1], SRC[0]);
+        let mut ops = vec![Op::Ssrc(SSRC), Op::Enable, Op::Pkt(o.0, o.1, rtp(false, 10, 10, SSRC)), Op::Pkt(o.0, o.1, rtp(false, 20, 20, SSRC)), Op::Pkt(o.0, o.1, rtp(false, 30, 30, SSRC))];
+        ops.extend(api);
+        ops.extend([Op::Pkt(nw.0, nw.1, rtp(false, 500, 500, SSRC)), Op::Pkt(nw.0, nw.1, rtp(false, 600, 600, SSRC)), Op::Pkt(nw.0, nw.1, rtp(false, 700, 700, SSRC)), Op::Pkt(nw.0, nw.1, rtp(false, 800, 800, SSRC))]);
+        emit(&mut run, &rt, &Case { init: (9, 5009), maxp: 4, tcp: false, ops });
+        run.count("directed_reset_in_open_window");
     }
     // (3) directed: u8 counters at their ceiling (window 255, one source breaking its run each time,
     // a second source once): total and packet_count reach 255 exactly when rule 3 must fire
@@ -801,7 +868,7 @@ mod pc_stream {
                 let case = parse_case(&ops.join(" "));
                 let npre = o.model_ops.iter().position(|t| t == "|").unwrap() - 1;
                 let parse_obs = |t: &str| { let (r, l) = t.split_once('/').unwrap(); let (i, p) = r.split_once(':').unwrap();
-                    Obs { remote: (i.parse().unwrap(), p.parse().unwrap()), rtcp: None, latched: l == "1", rtcpl: false, fwd: "-", on: true, exp: 0, maxp: 0, prob: None } };
+                    Obs { remote: (i.parse().unwrap(), p.parse().unwrap()), rtcp: None, latched: l == "1", rtcpl: false, fwd: "-", on: false /* hidden part not observed here: skips the table oracles */, exp: 0, maxp: 0, prob: None } };
                 // states during the prefix are not observable (inside set_remote_description): replay it on a bare IceConn
                 let pre = exec_prefix(rt, &case, npre);
                 let mut obs: Vec<Obs> = pre;
